@@ -728,6 +728,66 @@ pub fn run(ctx: &Ctx) -> i32 {
     });
     total.extra.insert("programs_scheduled".into(), json!(sources.len()));
     total.merge(r);
+    // the repository's own ui-test programs (every builtin, big programs): never vs every step
+    let mut ui: Vec<String> = Vec::new();
+    fn walk(dir: &std::path::Path, out: &mut Vec<String>) {
+        if let Ok(rd) = std::fs::read_dir(dir) {
+            let mut entries: Vec<_> = rd.flatten().map(|e| e.path()).collect();
+            entries.sort();
+            for p in entries {
+                if p.is_dir() {
+                    walk(&p, out);
+                } else if p.extension().is_some_and(|e| e == "jsonnet") {
+                    if let Ok(t) = std::fs::read_to_string(&p) {
+                        out.push(t);
+                    }
+                }
+            }
+        }
+    }
+    if parts.contains('c') {
+        walk(std::path::Path::new("/repo/ui-tests/pass"), &mut ui);
+        walk(std::path::Path::new("/repo/ui-tests/fail"), &mut ui);
+    }
+    let ui: Vec<String> = if ctx.quick() { ui.into_iter().step_by(5).collect() } else { ui };
+    let ucfg = util::ForkCfg { threads: ctx.threads, mem_bytes: 4 << 30, case_timeout_s: 120, died_signature: "C03/abort".into(), resource_is_violation: false };
+    let r = util::par_forked(&ucfg, 64, |sh| {
+        let mut rep = Report::new();
+        for (i, src) in ui.iter().enumerate() {
+            if !sh.mine(i as u64) || !sh.begin_case(i as u64, &|| util::truncate(src, 200)) {
+                continue;
+            }
+            let obs = |sched: VerifGcSchedule| {
+                let r = rt::run_fresh(src.as_bytes(), &RunCfg { gc: Some(sched), ..Default::default() });
+                (r.outcome.exact(), r.traces, r.steps)
+            };
+            let base = obs(VerifGcSchedule::Never);
+            rep.states += 1;
+            rep.outcome(if base.0.starts_with("V ") { "ui:value" } else { "ui:error" });
+            for (name, sched) in [("every-step", VerifGcSchedule::Every(1)), ("every-7", VerifGcSchedule::Every(7)), ("default", VerifGcSchedule::Default)] {
+                if name == "every-step" && base.2 > 400_000 {
+                    rep.count("ui_programs_too_long_for_every_step", 1);
+                    continue;
+                }
+                let o = obs(sched);
+                rep.evaluations += 1;
+                rep.transitions += o.2;
+                rep.traces_validated += 1;
+                if o != base {
+                    rep.violation(
+                        format!("C03/schedule/{}", if o.0.contains("destroyed object") { "reachable-object-reclaimed" } else { "outcome-differs" }),
+                        format!("ui-test program under schedule {name}: {} but without collection {}", util::truncate(&o.0, 200), util::truncate(&base.0, 200)),
+                        json!({"type":"gc-schedule","source":src,"schedule":name}),
+                    );
+                    break;
+                }
+            }
+            leak_check_batch(std::slice::from_ref(src), &mut rep);
+        }
+        rep
+    });
+    total.extra.insert("ui_test_programs".into(), json!(ui.len()));
+    total.merge(r);
     total.extra.insert("shape_cases".into(), json!(shapes_done));
     total.extra.insert("sequence_cases".into(), json!(seq_done));
     util::finish(
